@@ -307,7 +307,7 @@ class DiskFile(VirtualFileContainer):
                 preamble.read(self.buffer, self.seek_granule(starting_granule.int))
 
                 data_length = preamble.data_length.int
-                if data_length == 0:
+                if data_length == 0 and preamble.length == 0:
                     data_length = self.calculate_file_length(starting_granule.int, fat, bytes_in_last_sector.int)
 
                 file_data, post_pointer = self.read_data(
